@@ -67,6 +67,9 @@ def c04(tier, seed):
     rep.assumptions = list(ASSUME) + ["a second lattice in units of 0.1 ms covers sub-second stamps around the latency bound "
                                       "and midnight"]
     run_models(rep, c04_models(tier) + [subsecond_model(tier, C04_INV)], clauses_of("C04"))
+    # code -> spec: the repository's own regression back-tests under the recording plugin, validated by TLC (EnvTrace.tla)
+    from . import envtrace_check
+    envtrace_check.validate_repo_tests(rep, tier, clauses_of("C04"))
     return rep.finish()
 
 
